@@ -173,7 +173,7 @@ class PacketDecoder:
         self.seq = (self.seq + 1) & 0xFFFFFFFF
         P = inf.problems
         body_len = len(wire) - self.mac_len          # everything before the MAC / tag
-        if body_len < 4 + 1 + 4:
+        if body_len < 4 + 1:
             P.append("packet-shorter-than-minimum")
             return inf
         trailer = wire[body_len:]
